@@ -175,10 +175,25 @@ func jsonDiffPaths(a, b json.RawMessage) []string {
 	var out []string
 	for _, k := range sortedKeys(keys) {
 		if !jsonEqual(x[k], y[k]) {
+			if k == "val_set" && jsonEqual(sortedValSet(x[k]), sortedValSet(y[k])) {
+				// the order of equal-power validators in the document follows the store order of
+				// their records and carries no meaning (InitGenesis sorts what it returns)
+				continue
+			}
 			out = append(out, k)
 		}
 	}
 	return out
+}
+
+func sortedValSet(raw json.RawMessage) json.RawMessage {
+	var vs []map[string]interface{}
+	if json.Unmarshal(raw, &vs) != nil {
+		return raw
+	}
+	sort.Slice(vs, func(i, j int) bool { return fmt.Sprint(vs[i]["public_key"]) < fmt.Sprint(vs[j]["public_key"]) })
+	b, _ := json.Marshal(vs)
+	return b
 }
 
 // classDiff groups a store diff by store:prefix-byte.
@@ -315,7 +330,10 @@ func c18Exec(r *Run) {
 			if !jsonEqual(m.genesis[name], re[name]) {
 				fields := jsonDiffPaths(m.genesis[name], re[name])
 				for _, f := range fields {
-					if r.violateKeepGoing(m.Name(), "second-export-equals-first", name+"."+f, fmt.Sprintf("module %s: field %s of the document exported from the imported chain differs from the first export", name, f)) {
+					var x, y map[string]json.RawMessage
+					_ = json.Unmarshal(m.genesis[name], &x)
+					_ = json.Unmarshal(re[name], &y)
+					if r.violateKeepGoing(m.Name(), "second-export-equals-first", name+"."+f, fmt.Sprintf("module %s: field %s of the document exported from the imported chain differs from the first export:\nfirst:  %s\nsecond: %s", name, f, firstN(string(x[f]), 600), firstN(string(y[f]), 600))) {
 						return
 					}
 				}
